@@ -43,6 +43,47 @@ theorem c20_ready (s : State) (i : In) :
 theorem c20_clear (s : State) (i : In) (h : i.clr = true) : (step s i).1.count = 0 := by
   simp [step, h]
 
+-- OBLIGATION c20_holders_bounded : acquisitions since the last clear never exceed the releases since then by more than max (every history)
+theorem c20_holders_bounded (max : Nat) (is : List In) :
+    acqs (sinceClear (run (init max) is).2) ≤ rels (sinceClear (run (init max) is).2) + max := by
+  have h1 := c20_count max is
+  have h2 := c20_bounded max is
+  omega
+
+-- OBLIGATION c20_no_deadlock : for max > 0 every reachable state has acquire ready or release ready (the two readiness conditions cover all counts)
+theorem c20_no_deadlock (max : Nat) (hm : 0 < max) (is : List In) :
+    acquireReady (run (init max) is).1 = true ∨ releaseReady (run (init max) is).1 = true := by
+  have hmx : (run (init max) is).1.max = max := by rw [run_max]; rfl
+  simp only [acquireReady, releaseReady, decide_eq_true_eq, hmx]
+  omega
+
+-- OBLIGATION c20_exchange : in a reachable state an acquire and a release executing in the same cycle (no clear) leave the count unchanged; the register truncation never interferes
+theorem c20_exchange (max : Nat) (is : List In) (i : In) :
+    let s := (run (init max) is).1
+    (step s i).2.acq = true → (step s i).2.rel = true → i.clr = false →
+    (step s i).1.count = s.count := by
+  intro s ha hr hc
+  have hinv : Inv s := run_inv (init max) is (inv_init max)
+  have h := step_count s i hinv
+  have hclr : (step s i).2.clr = i.clr := (c20_ready s i).2.2
+  rw [h, hclr, hc, ha, hr]
+  simp
+
+-- OBLIGATION c20_full_empty : acquire is refused exactly in the reachable states holding max acquisitions, release exactly in those holding none
+theorem c20_full_empty (max : Nat) (is : List In) :
+    (acquireReady (run (init max) is).1 = false ↔ (run (init max) is).1.count = max) ∧
+    (releaseReady (run (init max) is).1 = false ↔ (run (init max) is).1.count = 0) := by
+  have hmx : (run (init max) is).1.max = max := by rw [run_max]; rfl
+  have hb := c20_bounded max is
+  simp only [acquireReady, releaseReady, decide_eq_false_iff_not, hmx]
+  omega
+
+/-- non-vacuity of `c20_exchange`: acquire and release both execute at count 1 of 2 -/
+example :
+    let s := (run (init 2) [⟨true, false, false⟩]).1
+    (step s ⟨true, true, false⟩).2.acq = true ∧ (step s ⟨true, true, false⟩).2.rel = true ∧
+    (step s ⟨true, true, false⟩).1.count = 1 := by decide
+
 /-- non-vacuity: a concrete history with a clear in the middle and both methods active -/
 example :
     let is : List In := [⟨true, false, false⟩, ⟨true, true, false⟩, ⟨true, false, true⟩, ⟨true, true, false⟩, ⟨true, true, false⟩]
@@ -55,3 +96,7 @@ end TxV.Semaphore
 #print axioms TxV.Semaphore.c20_bounded
 #print axioms TxV.Semaphore.c20_ready
 #print axioms TxV.Semaphore.c20_clear
+#print axioms TxV.Semaphore.c20_holders_bounded
+#print axioms TxV.Semaphore.c20_no_deadlock
+#print axioms TxV.Semaphore.c20_exchange
+#print axioms TxV.Semaphore.c20_full_empty
